@@ -260,6 +260,16 @@ def make_pred(task):
             plain = ctx.call(mod.evaluate, *R.build(task, case)[0], **kw)
             if list(plain.keys()) != list(got.keys()) or any(not _same(plain[k], got[k]) for k in plain):
                 raise Violation("%s.evaluate changes when an unrelated keyword is added" % task)
+        # the returned mapping belongs to the caller: a reporting loop that edits it in place (scales a value, adds a column) must not
+        # change what the next evaluate() of the same annotation returns
+        for k in list(got.keys()):
+            got[k] = -12345.0
+        got["track"] = "edited by the caller"
+        again = ctx.call(mod.evaluate, *R.build(task, case)[0], **kw)
+        if list(again.keys()) != want_keys or any(not _same(again[k], exp[k]) for k in want_keys if (k, got.get(k), exp[k]) not in bad):
+            if not (task == "pattern" and any(x in ctx.known_hits for x in ("c03.pattern.evaluate:thresh_typo",))):
+                raise Violation("%s.evaluate: after the caller edited the mapping returned by the previous call, the next call returns keys %r / values that differ "
+                                "from the metric functions" % (task, list(again.keys())[:6]))
         rn, en = R.sides(case)
         empty = not (rn and en)
         if empty:
